@@ -243,6 +243,10 @@ func checkC02(e *core.Env) {
 		for ci, c := range cs.list {
 			rr := rand.New(rand.NewSource(r.Int63() + int64(ci)))
 			sc := genStatusScript(rr, kind, c.HTTP)
+			if rr.Intn(8) == 0 {
+				sc.CallTimeout = pick(rr, time.Hour, 30*time.Hour) // a caller with a distant deadline
+			}
+			sc.ViaCtx = rr.Intn(6) == 0 // handler metadata through grpc.SetTrailer(ctx, ...) and friends
 			e.Note("%s %s msg=%q", c.Name, sc.Shape(), trunc(sc.Ret.Msg, 40))
 			ref, ok, _ := execScript(cs.ref, sc, nil)
 			if !ok {
